@@ -205,7 +205,10 @@ func runFaultScenario(t *testing.T, rec *recorder, f fault, seed uint64, scratch
 			// a hard fault on a call made for an open connection owes that connection an OnClose with this error
 			// (a failed registration never opened one; a failed removal hits a connection that is closing anyway)
 			owes := ""
-			if f.hard && !rec.isEventfd(fd) && !strings.Contains(line, "EPOLL_CTL_ADD") && !strings.Contains(line, "EPOLL_CTL_DEL") {
+			// (read / write faults are visible in the log at the place where they happened -- the hooks carry the
+			// error -- and TrLife judges them there, knowing whether the connection was already being closed; only a
+			// failed change of the poll registration is invisible to the hooks)
+			if f.hard && f.syscall == "epoll_ctl" && strings.Contains(line, "EPOLL_CTL_MOD") {
 				owes = map[string]string{"ENOMEM": "errno12", "ECONNRESET": "ECONNRESET", "EPIPE": "EPIPE", "ETIMEDOUT": "errno110"}[f.errno]
 			}
 			rec.emit("FaultHit", "line", line, "fd", fd, "eventfd", rec.isEventfd(fd), "owes", owes)
